@@ -10,7 +10,8 @@ B1 == [id |-> "sirj",
        characs |-> {[name |-> "alive", parts |-> {"sus", "inf", "rcv"}, denom |-> ""], [name |-> "prev", parts |-> {"inf"}, denom |-> "alive"]},
        cascade |-> <<{"sus", "inf", "rcv"}, {"inf", "rcv"}, {"rcv"}>>,
        sheets |-> {"parameters", "compartments", "characteristics", "transitions", "databook pages", "cascades"}, columns |-> RequiredColumns, dupcodes |-> 0, dupdisplay |-> 0, datadefects |-> {},
-       datapops |-> {"adults", "kids"}, targetable |-> {"rec", "mort"},
+       datapops |-> {"adults", "kids"}, targetable |-> {"rec", "mort"}, extranames |-> {},
+       anch |-> [tpar |-> "rec", c1 |-> "inf", c2 |-> "sus", fpar |-> "foi", p2 |-> "mort"],
        pb |-> [progs |-> {"P1", "P2"}, dupprogs |-> 0, tpops |-> {"adults", "kids"}, tcomps |-> {"inf", "sus"}, epars |-> {"rec", "mort"}, epops |-> {"adults", "kids"},
                eprogs |-> {"P1", "P2"}, iprogs |-> {"P1", "P2"}, untargeted |-> {}, defects |-> {}]]
 MCBases == <<B1>>
@@ -23,5 +24,5 @@ MCMutations == {"none", "add_output_parameter", "undefined_compartment_in_transi
                 "progbook_reserved_program_name", "progbook_untargetable_parameter", "progbook_unknown_parameter", "progbook_unknown_effect_population", "progbook_unknown_program_in_effects",
                 "progbook_interaction_unknown_program", "progbook_no_target_compartment", "progbook_no_target_population", "progbook_missing_unit_cost", "progbook_missing_spending",
                 "progbook_outcome_without_baseline", "progbook_bad_coverage_interaction", "progbook_mixed_currencies", "progbook_delete_effects_sheet", "progbook_delete_spending_sheet",
-                "progbook_interaction_program_without_outcome"}
+                "progbook_interaction_program_without_outcome"} \cup GenericMutations
 ====
